@@ -2,6 +2,7 @@ mod c06;
 mod c10;
 mod c15;
 mod c16;
+mod c17;
 mod c18;
 mod c19;
 mod c20;
@@ -107,6 +108,16 @@ fn check(prop: &str, tier: &str) -> i32 {
             c16::run(tier, &mut r);
             r.finish()
         }
+        "C17" => {
+            let mut r = Report::new(prop, tier, "model_checking");
+            r.assumptions = vec![
+                "the child process is the real `xs serve` binary built from /repo's working tree (feature verif on, no scheduler installed); its internal schedule is the OS's".into(),
+                "restart points are at quiescent boundaries of the history (crash points inside an operation are C04's)".into(),
+                "absence (nothing stopped answers, nothing is re-executed) is decided after all expected answers plus an 80 ms grace period".into(),
+            ];
+            c17::run(tier, &mut r);
+            r.finish()
+        }
         "C18" => {
             let mut r = Report::new(prop, tier, "model_checking");
             r.assumptions = vec![
@@ -170,6 +181,7 @@ fn main() {
                 "c16" => c16::worker(),
                 "c19" => c19::worker(),
                 "c18" => c18::worker(),
+                "c17" => c17::worker(),
                 _ => usage(),
             }
             0
@@ -203,6 +215,7 @@ fn main() {
                 "c16" => c16::replay(rp),
                 "c19" => c19::replay(rp),
                 "c18" => c18::replay(rp),
+                "c17" => c17::replay(rp),
                 "e3" => {
                     let mut r = Report::new("C04", "quick", "fault_enumeration");
                     crash::run(rp["tier"].as_str().unwrap_or("quick"), &mut r);
